@@ -238,6 +238,24 @@ Section WithChain.
     | None => mkSt (new_lib_status_cr cr self) best
     | Some (p, l, lpb) => mkSt (load (mkLS p l lpb [] cr self) (k_no best)) best
     end.
+  (** bootLoader.load(resetHeight) with ForceResetHeight > 0 (operator action): proposals whose
+      Plib or PlibBy is above the reset height are deleted, and a LIB above it is reset to the
+      genesis block and the saved status is deleted from the DB. *)
+  Definition reset_prune (rh : Z) (p : proposed) : proposed :=
+    if rh >? 0 then
+      filter (fun kv => negb ((b_no (pl_plib (snd kv)) >? rh) || (b_no (pl_by (snd kv)) >? rh))) p
+    else p.
+  Definition restore_reset (sv : option saved) (best : block) (size self rh : Z) : status * option saved :=
+    let cr := confirms_required size in
+    match sv with
+    | None => (mkSt (new_lib_status_cr cr self) best, None)
+    | Some (p, l, lpb) =>
+        let ls := load (mkLS p l lpb [] cr self) (k_no best) in
+        let ls1 := set_prpsd ls (reset_prune rh (ls_prpsd ls)) in
+        if (rh >? 0) && (b_no (ls_lib ls1) >? rh)
+        then (mkSt (set_lib ls1 genesis_info) best, None)
+        else (mkSt ls1 best, sv)
+    end.
 End WithChain.
 
 (** * NeedReorganization, VerifyTimestamp (LIB rule), generateBlock's Confirms *)
@@ -377,7 +395,10 @@ Inductive op := OpD (b : block) (h : Z) | OpR (h : Z) | OpS (h : Z) | OpG (bps :
   (* chain-side tie (real ChainService with a recording consensus stub and a scripted LIB):
      OpL sets the LIB number; OpC delivers a block and carries the hash of the consensus
      calls the chain service made, the best block and the main chain *)
-  | OpL (n : Z) | OpC (b : block) (h : Z).
+  | OpL (n : Z) | OpC (b : block) (h : Z)
+  (* shadow restart with ForceResetHeight = rh: hash of the restored status, and whether the
+     saved status is still in the DB (1) or was deleted (0) *)
+  | OpF (rh : Z) (h : Z) (kept : Z).
 
 (** The consensus calls chain.addBlock / chain.reorg make for one delivered block, as implied
     by [deliver]: 1 no = VerifyTimestamp(block no), 2 r = NeedReorganization(root no),
@@ -420,6 +441,11 @@ Fixpoint scenario_check (nd : node) (ops : list op) (i : nat) : option nat :=
   | OpG bps h :: tl =>
       let nd' := gc_node nd bps in
       if obs_hash 9 nd' =? h then scenario_check nd' tl (S i) else Some i
+  | OpF rh h kept :: tl =>
+      let '(st', sv') := restore_reset (main_get (nd_main nd)) (nd_saved nd) (st_best (nd_st nd)) (nd_size nd) (nd_self nd) rh in
+      let nd' := mkNode (nd_size nd) (nd_self nd) st' (nd_main nd) (nd_store nd) sv' in
+      if (obs_hash 8 nd' =? h) && ((match sv' with Some _ => 1 | None => 0 end) =? kept)
+      then scenario_check nd tl (S i) else Some i
   | OpL n :: tl => scenario_check (set_node_lib nd n) tl (S i)
   | OpC b h :: tl =>
       let nd' := fst (deliver nd b) in
@@ -437,6 +463,9 @@ Fixpoint scenario_obs_at (nd : node) (ops : list op) (i : nat) : list Z :=
         | OpR _ => (restart nd, 8, restart nd)
         | OpS _ => (restart nd, 8, nd)
         | OpG bps _ => (gc_node nd bps, 9, gc_node nd bps)
+        | OpF rh _ _ =>
+            let '(st', sv') := restore_reset (main_get (nd_main nd)) (nd_saved nd) (st_best (nd_st nd)) (nd_size nd) (nd_self nd) rh in
+            (mkNode (nd_size nd) (nd_self nd) st' (nd_main nd) (nd_store nd) sv', 8, nd)
         | OpL n => (set_node_lib nd n, 10, set_node_lib nd n)
         | OpC b _ => (fst (deliver nd b), 11, fst (deliver nd b))
         end in
